@@ -158,10 +158,10 @@ def run_single(case):
     p_start = np.array(list(dep.parameters.values()), dtype=float)
     try:
         dep.fit(x, y)
+    except NotImplementedError:   # weighted AND constrained fitting is documented as not implemented
+        return {"viol": [], "n": 1, "nontrivial": 0, "count": {"refused_weighted_constrained_not_implemented": 1}}
     except RuntimeError as e:
-        return {"viol": [], "n": 1, "nontrivial": 0, "count": {"refused_runtime_error": 1}}
-    except NotImplementedError:
-        return {"viol": [], "n": 1, "nontrivial": 0, "count": {"refused_not_implemented": 1}}
+        return {"viol": [], "n": 1, "nontrivial": 0, "count": {"refused_runtime_error_failed_to_fit": 1}}
     except ValueError as e:
         if "infeasible" in str(e):  # the start values violate the declared bounds: a refusal, not a result
             return {"viol": [], "n": 1, "nontrivial": 0, "count": {"refused_start_outside_bounds": 1}}
@@ -236,6 +236,8 @@ GRAPHS = {
     "C->B->A": {"A": ["B"], "B": ["C"], "C": []},
     "(B,C)->A": {"A": ["B", "C"], "B": [], "C": []},
     "B->C,(B,C)->A": {"A": ["B", "C"], "C": ["B"], "B": []},
+    "D->C->B->A": {"A": ["B"], "B": ["C"], "C": ["D"], "D": []},
+    "(C,D)->B->A": {"A": ["B"], "B": ["C", "D"], "C": [], "D": []},
 }
 
 
@@ -276,7 +278,7 @@ def build_functions(graph):
 
 def data_version(name, v):
     x = np.linspace(0.5, 6.0, 7)
-    k = {"A": 1.0, "B": 2.0, "C": 3.0}[name]
+    k = {"A": 1.0, "B": 2.0, "C": 3.0, "D": 4.0}[name]
     y = (0.3 * k + 0.2 * v) + (0.5 / k + 0.1 * v) * x + 0.05 * np.sin(k * x + v)
     return x, y
 
@@ -470,7 +472,7 @@ def main(ctx):
     ctx.rule = ("A1: complete product shape (8) x support points {3,5,10,20} x bounds {None, all None, finite inactive, lower "
                 "active, upper active, mixed} x weights {None, y, 1/x} x constraints {None, dict inactive, dict active, list of "
                 "two} x start {signature/default 1, near}. A2: explicit-state BFS over ALL sequences of fit(f, data version) "
-                "events on the real DependenceFunction objects for four dependency graphs until no new canonical state "
+                "events on the real DependenceFunction objects for four (thorough: six, with three data versions) dependency graphs until no new canonical state "
                 "appears; plus ConditionalDistribution.fit for all 6 permutations of the parameters dict x all fit/re-fit "
                 "histories of length <= 2. Non-trivial: fits that return / histories in which a dependent function was given "
                 "data before one of its conditioners.")
@@ -480,7 +482,7 @@ def main(ctx):
                        "a RuntimeError 'Failed to fit' / NotImplementedError (weighted constrained fit) is a refusal"]
     q = ctx.quick
     cases = []
-    ns = (3, 10) if q else (3, 5, 10, 20)
+    ns = (3, 5, 10, 20) if q else (3, 4, 5, 7, 10, 15, 20, 40)
     for shape in SHAPES:
         for n in ns:
             if n < len(SHAPES[shape][1]):
@@ -493,7 +495,9 @@ def main(ctx):
                                           "constraints": ck, "start": start})
     nsingle = len(cases)
     for g in GRAPHS:
-        cases.append({"kind": "protocol", "graph": g, "versions": [1, 2], "max_depth": 12})
+        if q and g in ("D->C->B->A", "(C,D)->B->A"):
+            continue
+        cases.append({"kind": "protocol", "graph": g, "versions": [1, 2] if q else [1, 2, 3], "max_depth": 16})
     for perm in itertools.permutations(("alpha", "beta", "gamma")):
         cases.append({"kind": "conditional", "perm": list(perm), "histories": [[1], [2], [1, 2], [2, 1], [1, 1]]})
     for c in cases:
